@@ -6,7 +6,10 @@ Tie to the code on every run:
   observation level whole documents through `rtf_encode()`; the page of every tagged data row is read
                     back from the RTF; the Lean-defined oracle `checkBreaks` (the decidable form of the
                     theorem's clauses) is evaluated on the *observed* pagination with row costs computed
-                    here from the document (never from rtflite internals).
+                    here from the document (never from rtflite internals).  Three streams: equal widths / one font
+                    (`gen_doc`), general geometry (`gen_doc_w`), and fonts / sizes that vary BY ROW over columns that
+                    repeat their texts (`gen_doc_r`: the height of a cell is a function of its text, of the font and
+                    size at its own row and column, and of its own column's width — of nothing else).
   (d) rows of two subline_by / (new_page) page_by groups never share a page — checked on the observation
   (e) prefix stability — metamorphic on the implementation: the table cut after m rows paginates its rows
       exactly as the full table did.
@@ -27,7 +30,14 @@ RULE = ("unit: metadata vectors (total 1..4, group/subline flags, nrow, addition
         "the data columns, every grouping option (page_by 0..2 levels × new_page × pageby_row, subline_by 0..2 levels, "
         "both) — so that the set of columns leaving the table, and whether a page_by column STAYS in it, runs over all "
         "cases; every displayed cell (tags, long texts, kept key values) is ≥ 0.2 line inside a band at the width, "
-        "font and size of its OWN column, long texts in any number of columns, also long 1-line texts; "
+        "font and size of its OWN column, long texts in any number of columns, also long 1-line texts; (iii) `r/…` the "
+        "same geometry with text_font_size and / or text_font varying BY ROW (tuple, n×1 matrix, full matrix with equal "
+        "rows, per-cell matrix over a palette of 2-3 values, tuples and matrices SHORTER than the table that are repeated "
+        "cyclically) and with data columns that repeat their texts: every data column but the one that carries the row "
+        "tags draws from a pool of 1-3 texts of the column plus near-repeats (one character more / less / changed, case "
+        "swapped), so the same text stands in one column at two sizes / fonts with two different line counts; values of a "
+        "page_by column that stays in the table long enough to wrap at the larger size; every cell ≥ 0.2 line inside a "
+        "band at the font and size of its OWN ROW AND COLUMN; "
         "non-trivial = at least 2 pages and at least one break caused by overflow or by a "
         "grouping rule; distinct by (strategy, nrow, additional, page vector)")
 TRUSTED = [
@@ -36,7 +46,8 @@ TRUSTED = [
     "harness/rtfread.py (Python RTF reader used to observe the page of each tagged row)",
     "row costs fed to the oracle are computed by the harness from the document: the height of a row is the largest "
     "int(width / column width) + 1 over its displayed cells, each text measured with get_string_width at the font and "
-    "size of its own column against the width of its own column (col_rel_width share of the table width) and "
+    "size of its own cell (row AND column: laygen.attr_at on the attribute as given, cyclic broadcast; nothing is "
+    "remembered per text) against the width of its own column (col_rel_width share of the table width) and "
     "generated to lie well inside that band; + the heading lines of the groups the row starts",
 ]
 MANIFEST = dict(
@@ -49,8 +60,9 @@ MANIFEST = dict(
          "equal to the model for all inputs (Props/C04py.lean).",
     note="Row costs in the document-level oracle come from the harness (texts well inside a line band of their own "
          "column — its width, font and size —, measured with the real get_string_width; unequal col_rel_width, "
-         "per-column / per-cell fonts and sizes, page_by columns kept in or removed from the table, key columns at any "
-         "position); Pillow, polars and pydantic are parameters.",
+         "per-column / per-cell / per-ROW fonts and sizes (tuples, column matrices, cyclic short values) with texts that "
+         "repeat within a column, so one text has several heights in one column; page_by columns kept in or removed from "
+         "the table, key columns at any position); Pillow, polars and pydantic are parameters.",
     technique="Lean 4 proof (induction over rows) + source-to-Lean translation of _assign_pages with an equality theorem + "
               "differential correspondence model/implementation",
     design="7/C04",
@@ -378,7 +390,158 @@ def place(rng, base: str, cw: float, font, size, k=None, fill="words"):
     return s if lo <= q(s) <= hi and well_inside(q(s)) else None
 
 
-def _gen_doc_w_once(rng):
+# ---- the row-varying class: attributes that feed the height measurement vary BY ROW, cell texts repeat in a column
+#
+# `text_font_size` and `text_font` are looked up per (row, displayed column); a row-shaped value (flat list) gives every
+# column its own value, a column-shaped one (tuple, n×1 matrix) every ROW, a matrix every cell, and a value shorter than
+# the table is repeated cyclically.  The documents of this class draw both attributes over all of these shapes from a
+# SMALL palette (so that one (font, size) recurs in many rows and several stand side by side in one column), and fill the
+# data columns but one from a small pool of texts per column (the same text, and texts one character away from it, in
+# many rows; sometimes two columns share a pool): the height of a cell depends on its text AND on the font and size of its
+# own row AND on the width of its own column, so the same text has different heights in one column, and in two columns.
+# One data column keeps the row tags.
+
+ROWVAR_SIZES = [6, 7.5, 8, 9, 10, 12, 14, 16, 18]
+ROW_SHAPES = ["row_tuple", "row_tuple", "row_colmatrix", "row_matrix", "row_cycle", "cell_few", "cell_cycle"]
+
+
+def _by_row(rng, n, palette, shape, ncols):
+    """attribute value of the given row-varying shape over `palette`"""
+    def runs():
+        if rng.random() < 0.5:
+            return [rng.choice(palette) for _ in range(n)]
+        out = []
+        while len(out) < n:
+            out += [rng.choice(palette)] * rng.randint(1, 6)
+        return out[:n]
+
+    if shape == "row_tuple":
+        return {"__tuple__": runs()}
+    if shape == "row_colmatrix":
+        return [[v] for v in runs()]
+    if shape == "row_matrix":
+        return [[v] * ncols for v in runs()]
+    if shape == "row_cycle":           # shorter than the table: repeated cyclically down the rows
+        m = rng.randint(2, 4)
+        vals = [rng.choice(palette) for _ in range(m)]
+        if len(set(vals)) == 1 and len(palette) > 1:
+            vals[-1] = rng.choice([v for v in palette if v != vals[0]])
+        return {"__tuple__": vals} if rng.random() < 0.5 else [[v] for v in vals]
+    if shape == "cell_few":
+        return [[rng.choice(palette) for _ in range(ncols)] for _ in range(n)]
+    if shape == "cell_cycle":          # a small matrix repeated cyclically in both directions
+        w = rng.randint(1, ncols)
+        return [[rng.choice(palette) for _ in range(w)] for _ in range(rng.randint(2, 4))]
+    raise ValueError(shape)
+
+
+def _draw_rowvar_attrs(rng, body, n, ncols):
+    """text_font_size / text_font of the row-varying class, written into `body`; at least one of them varies by row"""
+    which = rng.choice(["size", "size", "size", "font", "both", "both"])
+    smode = fmode = "default"
+    if which in ("size", "both"):
+        smode = rng.choice(ROW_SHAPES)
+        a = rng.choice(ROWVAR_SIZES)
+        # two or three sizes, one of them at least 1.5 times another: the same text changes its line count
+        big = [v for v in ROWVAR_SIZES if v >= 1.5 * a or a >= 1.5 * v]
+        palette = [a, rng.choice(big)] + ([rng.choice(ROWVAR_SIZES)] if rng.random() < 0.4 else [])
+        body["text_font_size"] = _by_row(rng, max(n, 1), palette, smode, ncols)
+    else:
+        smode = rng.choice(["default", "scalar", "col"])
+        if smode == "scalar":
+            body["text_font_size"] = rng.choice(SIZES)
+        elif smode == "col":
+            body["text_font_size"] = [rng.choice(SIZES) for _ in range(ncols)]
+    if which in ("font", "both"):
+        fmode = rng.choice(ROW_SHAPES)
+        # fonts of different width classes (1 Times, 4 Arial, 9 Courier New, …): the same text, another width
+        palette = rng.sample(range(1, 11), rng.choice([2, 2, 3]))
+        body["text_font"] = _by_row(rng, max(n, 1), palette, fmode, ncols)
+    else:
+        fmode = rng.choice(["default", "default", "scalar", "col"])
+        if fmode == "scalar":
+            body["text_font"] = rng.randint(1, 10)
+        elif fmode == "col":
+            body["text_font"] = [rng.randint(1, 10) for _ in range(ncols)]
+    return smode, fmode
+
+
+_STARTS = ["Dose interrupted", "Not done", "Adverse event", "Placebo", "N", "-", "Week 12 visit", "MISSING", "0.05 (0.01)"]
+
+
+def _text_pool(rng, cwc, combos):
+    """a small pool of texts for one column (width cwc) whose cells are shown at the (font, size) pairs `combos`: texts that
+    are well inside a band at as many of the pairs as possible — preferably with DIFFERENT line counts at two of them —,
+    each followed by near-repeats (one character more, one less, one changed)"""
+    def qs(s):
+        return [laygen.measure(s, f, z) / cwc for f, z in combos]
+
+    pool = []
+    for _ in range(rng.choice([1, 1, 2, 3])):
+        s = rng.choice(_STARTS)
+        target = rng.choice([1, 2, 2, 3])          # lines wanted at the widest pair
+        best = None
+        for _ in range(60):
+            q = qs(s)
+            inside = sum(well_inside(x) for x in q)
+            differ = len({int(x) for x in q if well_inside(x)}) > 1
+            score = (inside == len(q) and differ, differ, inside)
+            if best is None or score > best[0]:
+                best = (score, s)
+            if (score[0] and int(max(q)) + 1 >= target) or max(q) > 3.6:
+                break
+            s += (" " + rng.choice(_WORDS)) if rng.random() < 0.8 else rng.choice("WM@%il.")
+        t = best[1]
+        pool.append(t)
+        for _ in range(rng.choice([0, 1, 2, 2, 3])):
+            kind = rng.choice(["more", "less", "changed", "case"])
+            if kind == "more":
+                pool.append(t + rng.choice(".isW"))
+            elif kind == "less" and len(t) > 1:
+                pool.append(t[:-1])
+            elif kind == "changed":
+                pool.append(t[:-1] + rng.choice("xo0."))
+            else:
+                pool.append(t.swapcase())
+    out = []
+    for t in pool:
+        if t not in out and not _TAG.match(t):
+            out.append(t)
+    return out
+
+
+def _repeat_labels(all_cols, displayed, rows, cw, fs):
+    """what the row-varying document exhibits: a text repeated in one column, at two (font, size) pairs, with two heights"""
+    labs = set()
+    for k, c in enumerate(displayed):
+        ci = all_cols.index(c)
+        seen = {}
+        for i, row in enumerate(rows):
+            f, z = fs(i, c)
+            seen.setdefault(str(row[ci]), set()).add((f, z, int(laygen.measure(str(row[ci]), f, z) / cw[k]) + 1))
+        for t, v in seen.items():
+            if len(v) > 1:
+                labs.add("repeat_text_two_fontsizes")
+                if len({x[2] for x in v}) > 1:
+                    labs.add("repeat_text_two_heights")
+        if len(seen) < len(rows):
+            labs.add("repeat_text_in_column")
+    by_text = {}
+    for k, c in enumerate(displayed):
+        ci = all_cols.index(c)
+        for i, row in enumerate(rows):
+            f, z = fs(i, c)
+            by_text.setdefault((str(row[ci]), f, z), set()).add(
+                (k, int(laygen.measure(str(row[ci]), f, z) / cw[k]) + 1))
+    for v in by_text.values():
+        if len({x[0] for x in v}) > 1:
+            labs.add("same_text_font_size_in_two_columns")
+            if len({x[1] for x in v}) > 1:
+                labs.add("same_text_font_size_two_heights_by_width")
+    return ["rowvar_" + x for x in sorted(labs)]
+
+
+def _gen_doc_w_once(rng, rowvar=False):
     label, levels, new_page, pageby_row, has_sub = rng.choices(GROUPINGS, weights=_GROUPING_WEIGHTS)[0]
     n = rng.choice([0, 1, 2, 3]) if rng.random() < 0.08 else rng.randint(4, 45)
     ndata = rng.randint(2, 4)
@@ -443,18 +606,22 @@ def _gen_doc_w_once(rng):
     cw = [W * r / sum(rel_disp) for r in rel_disp]
 
     # fonts and sizes: attribute vectors run over the FRAME's columns (rtflite slices them with the columns)
-    smode = rng.choice(["default", "default", "scalar", "col", "col", "cell" if n else "col"])
-    if smode == "scalar":
-        body["text_font_size"] = rng.choice(SIZES)
-    elif smode == "col":
-        body["text_font_size"] = [rng.choice(SIZES) for _ in range(ncols)]
-    elif smode == "cell":
-        body["text_font_size"] = [[rng.choice(SIZES) for _ in range(ncols)] for _ in range(n)]
-    fmode = rng.choice(["default", "default", "scalar", "col"])
-    if fmode == "scalar":
-        body["text_font"] = rng.randint(1, 10)
-    elif fmode == "col":
-        body["text_font"] = [rng.randint(1, 10) for _ in range(ncols)]
+    if rowvar:
+        # … and, in the row-varying class, over its ROWS as well (tuple / column matrix / full matrix / short cycle)
+        smode, fmode = _draw_rowvar_attrs(rng, body, n, ncols)
+    else:
+        smode = rng.choice(["default", "default", "scalar", "col", "col", "cell" if n else "col"])
+        if smode == "scalar":
+            body["text_font_size"] = rng.choice(SIZES)
+        elif smode == "col":
+            body["text_font_size"] = [rng.choice(SIZES) for _ in range(ncols)]
+        elif smode == "cell":
+            body["text_font_size"] = [[rng.choice(SIZES) for _ in range(ncols)] for _ in range(n)]
+        fmode = rng.choice(["default", "default", "scalar", "col"])
+        if fmode == "scalar":
+            body["text_font"] = rng.randint(1, 10)
+        elif fmode == "col":
+            body["text_font"] = [rng.randint(1, 10) for _ in range(ncols)]
 
     def fs(i, c):
         ci = all_cols.index(c)
@@ -494,6 +661,10 @@ def _gen_doc_w_once(rng):
         for v in sorted(set(keyvals[kc])):
             rows_v = [i for i in range(n) if keyvals[kc][i] == v]
             v2 = v
+            if rowvar and rng.random() < 0.5:
+                # a longer value: the SAME text stands in every row of the group, and may need more lines in the rows
+                # that show it at a larger size / a wider font
+                v2 += "".join(" " + rng.choice(_WORDS) for _ in range(rng.randint(1, 5)))
             for _ in range(60):
                 if all(well_inside(laygen.measure(v2, *fs(i, kc)) / cw[k]) for i in rows_v):
                     break
@@ -508,15 +679,40 @@ def _gen_doc_w_once(rng):
     # data cells
     rows, lines = [], []
     long_left_of_kept = False
+    # row-varying class: one data column carries the row tags, the others (most of them) show texts drawn from a small
+    # pool of the column — the same text, and texts that differ from it in one character, in many rows of one column
+    pools = {}
+    if rowvar and n:
+        tagcol = rng.randrange(ndata)
+        for j, c in enumerate(cols):
+            if j != tagcol and rng.random() < 0.8:
+                if pools and rng.random() < 0.3:
+                    # the texts of another column: the same text in two columns of different width (font, size)
+                    pools[c] = list(pools[rng.choice(sorted(pools))])
+                    continue
+                combos = sorted({fs(i, c) for i in range(n)})
+                pools[c] = _text_pool(rng, cw[displayed.index(c)], combos)
     for i in range(n):
         row = {kc: keyvals[kc][i] for kc in keycols}
         tall = rng.random() < 0.45
         for j, c in enumerate(cols):
+            f, s = fs(i, c)
+            if c in pools:
+                cwc = cw[displayed.index(c)]
+                fit = [t for t in pools[c] if well_inside(laygen.measure(t, f, s) / cwc)]
+                if fit:
+                    # mostly the pool's first text that fits: long runs of one text, at whatever size the row has
+                    t = fit[0] if rng.random() < 0.6 else rng.choice(fit)
+                else:
+                    t = place(rng, pools[c][0], cwc, f, s, None)     # the pool text, grown into a band: near-repeat
+                if t is None:
+                    return None
+                row[c] = t
+                continue
             tag = f"r{i}c{j}"
             k = None
             if tall and rng.random() < 0.45:
                 k = rng.choice([1, 1, 2, 2, 3])
-            f, s = fs(i, c)
             t = place(rng, tag, cw[displayed.index(c)], f, s, k, fill="wide" if rng.random() < 0.2 else "words")
             if t is None:
                 return None
@@ -578,6 +774,8 @@ def _gen_doc_w_once(rng):
     kept = [c for c in (page_by or []) if c not in removed]
     shape = ["w:" + wmode, "size:" + smode, "font:" + fmode, "order:" + (order if keycols else "nokeys"),
              "tablew:" + ("default" if W == 6.25 else "custom")]
+    if rowvar:
+        shape = ["rowvar"] + ["rowvar_" + x for x in shape] + _repeat_labels(all_cols, displayed, rows, cw, fs)
     if kept:
         shape.append("pageby_col_kept")
         if len(set(round(x, 6) for x in cw)) > 1:
@@ -587,7 +785,8 @@ def _gen_doc_w_once(rng):
     if removed and len(set(round(x, 6) for x in cw)) > 1:
         shape.append("cols_removed+unequal_widths")
     np_eff = True if subline_by else bool(new_page)
-    exp = dict(nrow=nrow, additional=additional, np=np_eff, rows=meta, strategy="w/" + label, shape=shape,
+    exp = dict(nrow=nrow, additional=additional, np=np_eff, rows=meta, strategy=("r/" if rowvar else "w/") + label,
+               shape=shape,
                col_widths=[round(x, 6) for x in cw], data_lines=lines,
                skeys=["|".join(keyvals[c][i] for c in subline_by) for i in range(n)] if subline_by else None,
                pkeys=["|".join(keyvals[c][i] for c in page_by) for i in range(n)] if page_by else None)
@@ -608,6 +807,18 @@ def gen_doc_w(seed, k, tier):
             return c
     c = gen_doc(sub_rng(seed, "c04docw-fallback", k), tier)
     c["exp"]["shape"] = ["fallback_equal_widths"]
+    return c
+
+
+def gen_doc_r(seed, k, tier):
+    """row-varying document number k of the seed's stream (see `_draw_rowvar_attrs`, `_text_pool`)"""
+    for attempt in range(40):
+        c = _gen_doc_w_once(sub_rng(seed, "c04docr", k, attempt), rowvar=True)
+        if c is not None:
+            c["exp"]["attempts"] = attempt + 1
+            return c
+    c = gen_doc(sub_rng(seed, "c04docr-fallback", k), tier)
+    c["exp"]["shape"] = ["rowvar_fallback_equal_widths"]
     return c
 
 
@@ -673,7 +884,7 @@ def judge_doc(res, case, ob, drv):
             if exp.get("col_widths"):
                 geo = (f"; {exp['strategy']}, nrow {exp['nrow']}, {exp['additional']} reserved; displayed column widths "
                        f"{[round(x, 3) for x in exp['col_widths']]} in; data lines of the rows, every cell at its own "
-                       f"column's width / font / size: {exp['data_lines']}")
+                       f"column's width and at the font / size of its own row and column: {exp['data_lines']}")
             res.fail(case, f"observed pagination {pages} violates {drv['viol'][:4]} (model: {drv['pages']}){geo}")
             return
         if drv["pages"] != pages:
@@ -748,11 +959,29 @@ def run_docs_w(res, tier):
     _judge_all(res, [c for c, _ in out], [o for _, o in out])
 
 
+def _docr_worker(arg):
+    seed, k, tier = arg
+    c = gen_doc_r(seed, k, tier)
+    n = len(c["exp"]["rows"])
+    if n >= 2 and k % 3 == 0:
+        c["prefix_m"] = sub_rng(seed, "c04pmr", k).randint(1, n - 1)
+    return c, _doc_worker(c)
+
+
+def run_docs_r(res, tier):
+    """tables whose fonts / sizes vary BY ROW and whose columns repeat their texts (the height of a cell is a function of
+    its text and of the font and size of its own row)"""
+    ndocs = 200 if tier == "quick" else 2400
+    out = common.pool_map(_docr_worker, [(res.seed, k, tier) for k in range(ndocs)], chunksize=2)
+    _judge_all(res, [c for c, _ in out], [o for _, o in out])
+
+
 def run(res: common.Result, build) -> int:
     rng = sub_rng(res.seed, "c04")
     run_unit(res, rng, res.tier)
     run_docs(res, rng, res.tier)
     run_docs_w(res, res.tier)
+    run_docs_r(res, res.tier)
     if res.failures or res.disagreements or not build["proof_ok"]:
         pass  # intensified search would go here; the streams above already cover the small space exhaustively
     return common.finish(
